@@ -89,6 +89,9 @@ fn main() {
                     std::process::exit(2);
                 }
             }
+            // the guard zones behind every heap block of this run (p_cas::Counting) were intact when the blocks were freed
+            let over = p_cas::take_overruns();
+            out.case("expect", &["no write past the end of a heap block during the whole run"], &over.map(|o| format!("heap overrun: {o}")).unwrap_or("true".into()), true);
             out.finish();
         }
         "tables" => tables::dump(&args[2]),
